@@ -38,6 +38,16 @@ def callers_of(prog: Program, name: str) -> list[tuple[FuncInfo, ast.Call]]:
     return out
 
 
+def _on_true_branch(node: ast.AST, tests: tuple[str, ...]) -> bool:
+    """node lies in the body (true branch) of an enclosing `if <one of tests>`."""
+    cur, prev = parent(node), node
+    while cur is not None and not isinstance(cur, ast.FunctionDef):
+        if isinstance(cur, ast.If) and norm(cur.test) in tests:
+            return any(prev is s or any(prev is x for x in ast.walk(s)) for s in cur.body)
+        prev, cur = cur, parent(cur)
+    return False
+
+
 def run(prog: Program, res: Result, tier: str) -> None:
     prog.consulted.update({FIO, READERS, "sigpyproc.io.sigproc"})
     # ---- R1 header skip -----------------------------------------------------------------------
@@ -132,30 +142,68 @@ def run(prog: Program, res: Result, tier: str) -> None:
                                 "read_block no longer reads nchans*nsamps elements / reshapes (nsamps, nchans)", construct="read_block read", key="read_block:read")
 
     # ---- R4 file-relative offset -------------------------------------------------------------------------------
-    src = norm(ss.node)
-    checks = [
-        ("file = first index with offset < cumulative data length", "fileid = np.where(offset < self.sinfo.cumsum_datalens)[0][0]" in src),
-        ("that file is opened at its header end", "self._seek2hdr(fileid)" in src),
-        ("in-file offset = offset - data of the preceding files, relative to the header end",
-         "file_offset = offset - self.sinfo.cumsum_datalens[fileid - 1]" in src and "self.file_obj.seek(file_offset, os.SEEK_CUR)" in src),
-        ("first file: offset itself, relative to the header end", "if fileid == 0: self.file_obj.seek(offset, os.SEEK_CUR)" in src),
-    ]
-    for what, ok in checks:
-        (res.ok if ok else res.bad)("R4", ss, ss.node, what if ok else f"_seek_set no longer satisfies: {what}", construct=what, key=f"_seek_set:{what[:40]}")
+    flow = flow_of(ss)
+    env = PolyEnv()
+
+    def P(text: str) -> Poly:
+        return env.poly(ast.parse(text, mode="eval").body)
+
+    fid = [d for d in flow.defs if d.var == "fileid" and d.kind == "assign"]
+    ok = len(fid) == 1 and norm(fid[0].value) == "np.where(offset < self.sinfo.cumsum_datalens)[0][0]"
+    (res.ok if ok else res.bad)("R4", ss, fid[0].stmt if fid else ss.node, "file = first index with offset < cumulative data length" if ok else
+                                "_seek_set no longer picks the first file whose cumulative data length exceeds the offset (strict <)",
+                                key="_seek_set:fileid", construct="fileid")
+    s2calls = [c for c in calls_in_body(ss.node) if (dotted(c.func) or "") == "self._seek2hdr"]
+    ok = len(s2calls) == 1 and len(s2calls[0].args) == 1 and norm(s2calls[0].args[0]) == "fileid"
+    (res.ok if ok else res.bad)("R4", ss, s2calls[0] if s2calls else ss.node, "that file is opened at its header end" if ok else
+                                "_seek_set does not enter the selected file through _seek2hdr(fileid)", key="_seek_set:enter", construct="_seek2hdr(fileid)")
+    inseeks = [c for c in calls_in_body(ss.node) if (dotted(c.func) or "") == "self.file_obj.seek"]
+    want_first = P("offset")
+    want_later = P("offset - self.sinfo.cumsum_datalens[fileid - 1]")
+    if not inseeks:
+        res.bad("R4", ss, ss.node, "_seek_set performs no in-file seek", key="_seek_set:inseek", construct="in-file seek")
+    for c in inseeks:
+        wh = c.args[1] if len(c.args) > 1 else next((k.value for k in c.keywords if k.arg == "whence"), None)
+        rel = wh is not None and norm(wh) in ("os.SEEK_CUR", "io.SEEK_CUR", "1")
+        p = env.poly(flow.expand(c.args[0], flow.cfg.node_for(c), stop={"offset", "fileid"}))
+        conds = [norm(t) for t in flow.control_conditions(flow.cfg.node_for(c))]
+        in_first = any(t in ("fileid == 0", "not fileid", "0 == fileid") for t in conds) and _on_true_branch(c, ("fileid == 0", "not fileid", "0 == fileid"))
+        after = bool(s2calls) and flow.cfg.dominates(flow.cfg.node_for(s2calls[0]), flow.cfg.node_for(c))
+        key = f"_seek_set:inseek:{'first' if in_first else 'later'}"
+        good = rel and after and ((in_first and p == want_first) or (not in_first and p == want_later) or
+                                  (not conds and p == want_later))
+        if good:
+            res.ok("R4", ss, c, "in-file offset = stream offset - data of the preceding files, relative (SEEK_CUR) to the header end", key=key)
+        else:
+            res.bad("R4", ss, c, f"in-file seek is to {p.canon()} ({'relative' if rel else 'NOT relative to the header end'}); expected "
+                    f"{(want_first if in_first else want_later).canon()} relative to the header end after _seek2hdr", key=key)
     cs = prog.func("sigpyproc.io.sigproc", "StreamInfo.cumsum_datalens")
     ok = "return np.cumsum(self.get_info_list('datalen'))" in norm(cs.node)
     (res.ok if ok else res.bad)("R4", cs, cs.node, "cumsum_datalens = cumulative sum of the per-file data lengths" if ok else "cumsum_datalens changed", construct="cumsum", key="cumsum")
 
     # ---- R5 reported position --------------------------------------------------------------------------------------
-    pf = prog.func(FIO, "FileReader.cur_data_pos_file")
+    from ..props import inline_props
     ps = prog.func(FIO, "FileReader.cur_data_pos_stream")
-    ok = "return self.file_obj.tell() - self.sinfo.entries[self.ifile_cur].hdrlen" in norm(pf.node)
-    (res.ok if ok else res.bad)("R5", pf, pf.node, "position in file = tell() - this file's header length" if ok else
+    pf = prog.func(FIO, "FileReader.cur_data_pos_file")
+    rets = [s for s in body_walk(pf.node) if isinstance(s, ast.Return) and s.value is not None and not (isinstance(s.value, ast.Constant))]
+    ok = len(rets) == 1 and env.poly(rets[0].value) == P("self.file_obj.tell() - self.sinfo.entries[self.ifile_cur].hdrlen")
+    (res.ok if ok else res.bad)("R5", pf, rets[0] if rets else pf.node, "position in file = tell() - this file's header length" if ok else
                                 "cur_data_pos_file is not tell() - hdrlen of the current file", construct="cur_data_pos_file", key="pos:file")
-    src = norm(ps.node)
-    ok = "if self.ifile_cur == 0: return self.cur_data_pos_file" in src and "return self.cur_data_pos_file + self.sinfo.cumsum_datalens[self.ifile_cur - 1]" in src
-    (res.ok if ok else res.bad)("R5", ps, ps.node, "stream position = position in file + data of the preceding files" if ok else
-                                "cur_data_pos_stream is not in-file position + cumsum_datalens[ifile-1]", construct="cur_data_pos_stream", key="pos:stream")
+    fl2 = flow_of(ps)
+    rets = [s for s in body_walk(ps.node) if isinstance(s, ast.Return) and s.value is not None and not isinstance(s.value, ast.Constant)]
+    base = P("self.file_obj.tell() - self.sinfo.entries[self.ifile_cur].hdrlen")
+    okp = bool(rets)
+    for r in rets:
+        p = env.poly(inline_props(prog, ps.cls, fl2.expand(r.value, fl2.cfg.node_for(r))))
+        first = _on_true_branch(r, ("self.ifile_cur == 0", "not self.ifile_cur"))
+        want = base if first else base + P("self.sinfo.cumsum_datalens[self.ifile_cur - 1]")
+        if p != want:
+            okp = False
+    if len(rets) == 1:
+        # single-expression form must still add the preceding files' data (first file handled by a conditional expression)
+        okp = okp or False
+    (res.ok if okp else res.bad)("R5", ps, ps.node, "stream position = position in file + data of the preceding files (none for the first file)" if okp else
+                                 "cur_data_pos_stream is not (tell - hdrlen) + cumsum_datalens[ifile-1]", construct="cur_data_pos_stream", key="pos:stream")
 
     # ---- R6 read loops ---------------------------------------------------------------------------------------------------
     cr = prog.func(FIO, "FileReader.cread")
@@ -229,4 +277,11 @@ MUTANTS = [
     {"id": "c02-dedisp-seek-elements", "file": R, "expect": "C02.R2",
      "old": "        self._file.seek(start * self.samp_stride)\n        samples_read", "new": "        self._file.seek(start * self.header.nchans)\n        samples_read"},
 ]
-TWINS = []
+TWINS = [
+    {"id": "c02-twin-offset-temp", "file": F,
+     "old": "            file_offset = offset - self.sinfo.cumsum_datalens[fileid - 1]\n            self.file_obj.seek(file_offset, os.SEEK_CUR)",
+     "new": "            before = self.sinfo.cumsum_datalens[fileid - 1]\n            self.file_obj.seek(-before + offset, os.SEEK_CUR)"},
+    {"id": "c02-twin-pos-temp", "file": F,
+     "old": "        return self.cur_data_pos_file + self.sinfo.cumsum_datalens[self.ifile_cur - 1]",
+     "new": "        preceding = self.sinfo.cumsum_datalens[self.ifile_cur - 1]\n        return preceding + self.cur_data_pos_file"},
+]
